@@ -139,8 +139,9 @@ func liveAppends(pa *provAnalysis, fr *Frame) []provSet {
 }
 
 func checkC08(c *Ctx, r *Report) {
-	r.Rules = []string{"R-conffiles (deb, ipk)", "R-backup (archlinux)", "R-rpmflag", "R-ghost-mode", "R-deb-skips-ghost", "F11 glob expansion keeps the declared type", "cross-check of rpmpack flag constants (thorough)"}
+	r.Rules = []string{"R-conffiles (deb, ipk)", "R-backup (archlinux)", "R-rpmflag", "R-ghost-mode", "R-deb-skips-ghost", "F11 glob expansion keeps the declared type", "cross-check of rpmpack flag constants (thorough)", "R-rpm-only rpm-only entry types planned for rpm only", "R-rpmflag-field every rpm file record's Type is set from its own FileType value", "R-prepared contents are read from the prepared Info only"}
 	r.Explanation = "Exhaustive decision of the (prepared entry type x packager) registration matrix by abstract evaluation over go/ssa: for every prepared type the deb and ipk conffiles builders and the archlinux backup loop are evaluated with the entry's type fixed, and registration (an append of the absolute destination / a 'backup' key-value write of the relative destination) must be live exactly for config, config|noreplace and config|missingok; the rpm payload writer is evaluated likewise and the set of rpmpack file-type constants that can reach the file constructor must be exactly the RPMFILE_* value the statement names for that type; the ghost default mode 0644 is stored iff the mode is 0; deb skips ghost entries; glob expansion copies the declaring entry's type. Together with the relevance table of C05 (types that never reach a format) this covers every cell; nothing is executed."
+	r.Explanation += " (R-rpmflag-field) every rpm file record's Type field is stored from a FileType value of its own construction on every path. (R-prepared) after Package has handed an Info to nfpm.PrepareForPackager, every function that reads .Contents reads it from that same Info (followed through parameters, captured variables and identity-returning helpers)."
 	r.Assumptions = []string{
 		"rpmpack's FileType constants carry the RPMFILE_* values (checked against the constants' values as compiled; rpmpack's use of them is the dependency's)",
 		"what a glob matches on disk is not analysed",
